@@ -545,19 +545,112 @@ func (f *Flow) errBranch(p point) (errB, okB, condB *cfg.Block, ok bool) {
 	if cond == nil || p.b.Nodes[p.i+1] != ast.Node(cond) {
 		return nil, nil, nil, false
 	}
-	be, isBin := cond.(*ast.BinaryExpr)
-	if !isBin {
-		return nil, nil, nil, false
+	// go/cfg keeps a short-circuit condition as one node: look at what each
+	// edge implies about `err != nil`.
+	isErrNE := func(e ast.Expr, want token.Token) bool {
+		be, ok := e.(*ast.BinaryExpr)
+		if !ok || be.Op != want {
+			return false
+		}
+		id, ok := be.X.(*ast.Ident)
+		return ok && f.Info.ObjectOf(id) == errObj && isNilIdent(f.Info, be.Y)
 	}
-	id, isId := be.X.(*ast.Ident)
-	if !isId || f.Info.ObjectOf(id) != errObj || !isNilIdent(f.Info, be.Y) {
-		return nil, nil, nil, false
+	for _, fact := range impliedFacts(cond, true) {
+		if fact.val && isErrNE(fact.expr, token.NEQ) || !fact.val && isErrNE(fact.expr, token.EQL) {
+			return t, e, p.b, true
+		}
 	}
-	switch be.Op {
-	case token.NEQ:
-		return t, e, p.b, true
-	case token.EQL:
-		return e, t, p.b, true
+	for _, fact := range impliedFacts(cond, false) {
+		if fact.val && isErrNE(fact.expr, token.NEQ) || !fact.val && isErrNE(fact.expr, token.EQL) {
+			return e, t, p.b, true
+		}
 	}
 	return nil, nil, nil, false
+}
+
+// fact: expression expr is known to evaluate to val.
+type fact struct {
+	expr ast.Expr
+	val  bool
+}
+
+// impliedFacts lists the atomic boolean sub-expressions whose value is
+// implied when cond evaluates to edge (go/cfg does not split && / ||).
+func impliedFacts(cond ast.Expr, edge bool) []fact {
+	switch x := cond.(type) {
+	case *ast.ParenExpr:
+		return impliedFacts(x.X, edge)
+	case *ast.UnaryExpr:
+		if x.Op == token.NOT {
+			return impliedFacts(x.X, !edge)
+		}
+	case *ast.BinaryExpr:
+		switch x.Op {
+		case token.LAND:
+			if edge {
+				return append(impliedFacts(x.X, true), impliedFacts(x.Y, true)...)
+			}
+			return nil
+		case token.LOR:
+			if !edge {
+				return append(impliedFacts(x.X, false), impliedFacts(x.Y, false)...)
+			}
+			return nil
+		}
+	}
+	return []fact{{cond, edge}}
+}
+
+// edgeImplies reports whether following successor si of block b implies
+// pred(expr, value) for some atomic fact of its condition.
+func edgeImplies(b *cfg.Block, si int, pred func(e ast.Expr, val bool) bool) bool {
+	cond, _, _ := condOf(b)
+	if cond == nil {
+		return false
+	}
+	for _, f := range impliedFacts(cond, si == 0) {
+		if pred(f.expr, f.val) {
+			return true
+		}
+	}
+	return false
+}
+
+// reachBlock reports whether a block accepted by isTarget can be entered
+// from the start points without passing a node matching stop.
+func (f *Flow) reachBlock(starts []point, stop nodePred, isTarget func(*cfg.Block) bool) bool {
+	seen := map[point]bool{}
+	stack := append([]point(nil), starts...)
+	first := true
+	for len(stack) > 0 {
+		pt := stack[len(stack)-1]
+		stack = stack[:len(stack)-1]
+		if seen[pt] {
+			continue
+		}
+		seen[pt] = true
+		if !first && pt.i == 0 && isTarget(pt.b) {
+			return true
+		}
+		first = false
+		stopped := false
+		for j := pt.i; j < len(pt.b.Nodes); j++ {
+			n := pt.b.Nodes[j]
+			if stop != nil && stop(n) {
+				stopped = true
+				break
+			}
+			if isReturn(n) {
+				stopped = true
+				break
+			}
+		}
+		if stopped {
+			continue
+		}
+		for _, s := range pt.b.Succs {
+			stack = append(stack, point{s, 0})
+		}
+	}
+	return false
 }
